@@ -158,20 +158,21 @@ def ofFlatInt (n : Nat) (l : List Int) : BMat :=
   let rows : Array (Array Bool) := Array.ofFn (n := n) fun i => Array.ofFn (n := n) fun j => decide (a.getD (i.val * n + j.val) 0 ≠ 0)
   BMat.ofRows n n rows
 
+/-- the loop of `automorph_check`: collect the relabelled matrices that differ from `a0` and from each other
+    (`acc` in reverse order of first occurrence) -/
+def automorphGo (g : BMat) (a0 : List Int) : List (List Nat) → List (List Int) → Except Err (List (List Int))
+  | [], acc => .ok acc.reverse
+  | p :: rest, acc =>
+    match relabel? g p with
+    | .error e => .error e
+    | .ok m => if m = a0 ∨ acc.contains m then automorphGo g a0 rest acc else automorphGo g a0 rest (m :: acc)
+
 /-- `automorph_check(adj1, labels_arr)`: `adj1` first, then the distinct relabelled matrices different from `adj1`
     (the Python iterates a `set`, so the order of the tail is unspecified; the model keeps first-occurrence order) -/
 def automorphCheck (g : BMat) (labels : List (List Nat)) : Except Err (List (List Int)) :=
-  let a0 := flatInt g
-  let rec go (ls : List (List Nat)) (acc : List (List Int)) : Except Err (List (List Int)) :=
-    match ls with
-    | [] => .ok acc.reverse
-    | p :: rest =>
-      match relabel? g p with
-      | .error e => .error e
-      | .ok m => if m = a0 ∨ acc.contains m then go rest acc else go rest (m :: acc)
-  match go labels [] with
+  match automorphGo g (flatInt g) labels [] with
   | .error e => .error e
-  | .ok tail => .ok (a0 :: tail)
+  | .ok tail => .ok (flatInt g :: tail)
 
 /-- is `m` (a map node ↦ node given as a list) an isomorphism from `A` to `B`?  the specification recorded for
     networkx `GraphMatcher.mapping`, evaluated on every observed result -/
@@ -421,6 +422,28 @@ structure IsoCfg where
   labelMap : Bool
   thresh : Option Nat
 
+/-- the sampling loop of `_label_finder`: `while len(new_label_set) < n_label and count < thresh` -/
+def labelSetLoop (nLabel thr : Nat) : Nat → List (List Nat) → Nat → List (List Nat) → List (List Nat) × Nat
+  | 0, set, count, _ => (set, count)
+  | f + 1, set, count, ds =>
+    if set.length < nLabel ∧ count < thr then
+      match ds with
+      | [] => (set, count)          -- starved: reported by the driver through the consumed count
+      | d :: rest => labelSetLoop nLabel thr f (if set.contains d then set else set ++ [d]) (count + 1) rest
+    else (set, count)
+
+/-- `thresh = 5 * n_label` by default; a threshold below `n_label` is raised to `n_label + 1` -/
+def threshOf (thresh : Option Nat) (nLabel : Nat) : Nat :=
+  match thresh with
+  | none => 5 * nLabel
+  | some t => if t < nLabel then nLabel + 1 else t
+
+/-- the initial `new_label_set`: the identity labelling unless a set is handed in -/
+def set0Of (labelSet : Option (List (List Nat))) (nNode : Nat) : List (List Nat) :=
+  match labelSet with
+  | none => [List.range nNode]
+  | some s => s
+
 /-- `_label_finder(n_label, n_node, new_label_set, exhaustive, seed, thresh)`.
     `draws` is what the generator returned in this call: the rows of `rng.choice(perm[1:], n_label - 1)` in the
     enumerate-all branch, the successive `rng.permutation(n_node)` in the sampling branch.
@@ -428,9 +451,7 @@ structure IsoCfg where
 def labelFinder (nLabel nNode : Nat) (labelSet : Option (List (List Nat))) (exhaustive : Bool) (thresh : Option Nat)
     (draws : List (List Nat)) : Except Err (List (List Nat) × Nat) :=
   let nMax := factorial nNode
-  let thr : Nat := match thresh with
-    | none => 5 * nLabel
-    | some t => if t < nLabel then nLabel + 1 else t
+  let thr : Nat := threshOf thresh nLabel
   if nLabel > nMax then .error .assertion
   else if nNode < 8 ∨ exhaustive then
     -- `rng.choice(perm[1:], n_label - 1)`; `n_label = 0` would ask for -1 samples (ValueError)
@@ -438,17 +459,7 @@ def labelFinder (nLabel nNode : Nat) (labelSet : Option (List (List Nat))) (exha
     else if nMax = 1 then .error .value     -- `perm[1:]` is empty: `choice` gives a 1-D array and `concatenate` fails
     else .ok (List.range nNode :: draws.take (nLabel - 1), nLabel - 1)
   else
-    let set0 := match labelSet with | none => [List.range nNode] | some s => s
-    let rec go (fuel : Nat) (set : List (List Nat)) (count : Nat) (ds : List (List Nat)) : List (List Nat) × Nat :=
-      match fuel with
-      | 0 => (set, count)
-      | f + 1 =>
-        if set.length < nLabel ∧ count < thr then
-          match ds with
-          | [] => (set, count)          -- starved: reported by the driver through the consumed count
-          | d :: rest => go f (if set.contains d then set else set ++ [d]) (count + 1) rest
-        else (set, count)
-    .ok (go (thr + 1) set0 0 draws)
+    .ok (labelSetLoop nLabel thr (thr + 1) (set0Of labelSet nNode) 0 draws)
 
 /-- `_add_labels(labels_arr, add_n, exhaustive, seed, thresh)` -/
 def addLabels (labels : List (List Nat)) (addN : Nat) (exhaustive : Bool) (thresh : Option Nat)
@@ -477,33 +488,35 @@ structure IsoRes where
 /-- Python `int(x)` of a non-negative float -/
 def floatToNat (x : Float) : Nat := x.floor.toUInt64.toNat
 
+/-- `success_ratio = len(adj_arr) / n_label if len(adj_arr) != 0 else 0.5` -/
+def succRatioOf (len nLabel : Nat) : Float := if len ≠ 0 then len.toFloat / nLabel.toFloat else 0.5
+
+/-- `rel_inc` after a round: updated only when the number of distinct matrices did not drop -/
+def relIncOf (n1 n2 : Nat) (sr relInc : Float) : Float :=
+  if n2 ≥ n1 then (n2.toFloat / (n1 + 1).toFloat) * sr else relInc
+
 /-- the `while` loop of `iso_finder` -/
 def isoLoop (cfg : IsoCfg) (g : BMat) (nMax : Nat) :
     Nat → List (List (List Nat)) → List (List Nat) → List (List Int) → Nat → Float → Bool → Nat → List Nat →
     Except Err IsoRes
   | 0, _, _, _, _, _, _, _, _ => .error .runtime
   | fuel + 1, draws, labels, adjArr, nLabel, relInc, allChecked, rounds, consumed =>
-    if adjArr.length < cfg.nIso ∧ relInc > cfg.relIncThresh ∧ !allChecked then
-      let succRatio : Float := if adjArr.length ≠ 0 then adjArr.length.toFloat / nLabel.toFloat else 0.5
-      let q := floatToNat (nLabel.toFloat / succRatio)
-      let addN := q + 1 - nLabel
-      let nLabel1 := q + 1
-      let over := nLabel1 > nMax
-      let nLabel2 := if over then nMax else nLabel1
-      if over ∧ !cfg.allowExhaustive ∧ succRatio < 0.5 then
+    if adjArr.length < cfg.nIso ∧ relInc > cfg.relIncThresh ∧ allChecked = false then
+      let sr := succRatioOf adjArr.length nLabel
+      let q := floatToNat (nLabel.toFloat / sr)
+      let over : Bool := decide (q + 1 > nMax)
+      if over && !cfg.allowExhaustive && decide (sr < 0.5) then
         .ok { full := adjArr, nOut := adjArr.length, path := "warn-return", sorted := false, withMap := false,
               rounds := rounds, consumed := consumed }
       else
-        match addLabels labels addN (cfg.allowExhaustive && over) cfg.thresh (draws.headD []) with
+        match addLabels labels (q + 1 - nLabel) (cfg.allowExhaustive && over) cfg.thresh (draws.headD []) with
         | .error e => .error e
         | .ok (labels1, used) =>
           match automorphCheck g labels1 with
           | .error e => .error e
           | .ok adj1 =>
-            let n1 := adjArr.length
-            let n2 := adj1.length
-            let relInc1 := if n2 ≥ n1 then (n2.toFloat / (n1 + 1).toFloat) * succRatio else relInc
-            isoLoop cfg g nMax fuel draws.tail labels1 adj1 nLabel2 relInc1 over (rounds + 1) (consumed ++ [used])
+            isoLoop cfg g nMax fuel draws.tail labels1 adj1 (if over then nMax else q + 1)
+              (relIncOf adjArr.length adj1.length sr relInc) over (rounds + 1) (consumed ++ [used])
     else
       .ok { full := adjArr, nOut := min cfg.nIso adjArr.length, path := "loop-exit", sorted := cfg.sortEmit,
             withMap := cfg.labelMap, rounds := rounds, consumed := consumed }
